@@ -164,7 +164,7 @@ func FixIdiomaticArray(input string) (string, error) {
 	const _TOKEN = "ARRAY"
 	indexes, err := FindArrayIndex(input)
 	if err != nil {
-		panic(err)
+		return "", err
 	}
 	offset := 0
 	for _, index := range indexes {
